@@ -112,6 +112,8 @@ def gen_retry_spec(tape, cfg: dict[str, Any]) -> dict:
     nexc = tape.rng_int(1, 3, "excs.n")
     excs = [tape.choice(EXC_POOL, "excs") for _ in range(nexc)]
     k = -1 if tape.chance(60, 100, "always-fail") else tape.rng_int(1, 4, "fail.k")
+    if cfg.get("p_collect_retry") and tape.chance(cfg["p_collect_retry"], 100, "collecting?"):
+        return _collecting(tape, cfg, pol, excs)
     if tape.chance(cfg.get("p_contend", 0), 100, "contend?"):
         return _contended(tape, cfg, pol, excs, k)
     steps = [{"name": "s0", "accepts": ["Start0"], "workers": 1, "sync": False, "retry": pol, "role": "step",
@@ -147,6 +149,25 @@ def _contended(tape, cfg, pol, excs, k) -> dict:
                          "scripts": {"E0": [("work", "work3"), ("ret", None)]}, "returns": [], "stop": False})
     return {"steps": steps, "types": ["E0"], "timeout": None, "driver": "finish", "disable_validation": False, "contended": True,
             "fan": n, "workers": workers, "sibling": sibling}
+
+
+def _collecting(tape, cfg, pol, excs) -> dict:
+    """the retried step is a collecting step (2-3 workers) whose set never completes: each invocation buffers its event and
+    then follows a failure pattern with a successful invocation in the middle.  A successful invocation that started from a
+    buffer snapshot which a sibling has extended meanwhile is run again by the engine (stale-snapshot re-run); the failures
+    after that re-run are still failures number 3, 4, ... of the same event"""
+    n = tape.rng_int(2, 3, "col.n")
+    pat = tape.choice([[1, 1, 0, 1, 1], [1, 1, 1, 0, 1], [1, 0, 1, 1, 1]], "col.pattern")
+    steps = [
+        {"name": "src", "accepts": ["Start0"], "workers": 1, "sync": False, "retry": None, "role": "step",
+         "scripts": {"Start0": [("psend", "E0", n), ("ret", None)]}, "returns": ["E0"], "stop": False},
+        {"name": "s0", "accepts": ["E0"], "workers": tape.rng_int(2, 3, "col.workers"), "sync": False, "retry": pol, "role": "step",
+         "scripts": {"E0": [("work",), ("collect", ["E0"] * 40, None, ("fail", excs[0], pat)), ("ret", None)]}, "returns": [], "stop": False},
+        {"name": "zfin", "accepts": ["Fin"], "workers": 1, "sync": False, "retry": None, "role": "step",
+         "scripts": {"Fin": [("pstop",)]}, "returns": [], "stop": True},
+    ]
+    return {"steps": steps, "types": ["E0"], "timeout": None, "driver": "finish", "disable_validation": False, "contended": True,
+            "collecting": True, "fan": n}
 
 
 def deliveries(recs, step="s0"):
